@@ -51,7 +51,10 @@ def handle (op : String) (args : List String) : String :=
       | none =>
         match UOB.flatKL S A B with
         | some s => "ok 2 " ++ toString s ++ " " ++ " ".intercalate (UOB.coreOpsK S s A B)
-        | none => "ok 0"
+        | none =>
+          match UOB.nbLL S A B with
+          | some s => "ok 3 " ++ toString s ++ " " ++ " ".intercalate (UOB.coreOpsNB s A B)
+          | none => "ok 0"
   | _, _ => "err BadOp"
 
 end LyModel.Diff.Drv
